@@ -30,11 +30,6 @@ class SgzCropper(SgzReader):
 
         err_string = "{} bounds out of range. Expected range within [{},{}], but got ({},{})."
 
-        if not (self.blockshape[0] == 4 and self.blockshape[1] == 4):
-            # Compressed data is copied assuming units are stored in plain IL-XL-Z order
-            print("Error: Cropping is only supported for files with 4x4xN blockshape, no file will be written.")
-            valid_bounds = False
-
         for index_range in [iline_index_range, xline_index_range, zslices_index_range]:
             if index_range[0] >= index_range[1]:
                 print("Error: Empty or inverted cropping range ({},{}), no file will be written.".format(*index_range))
@@ -173,15 +168,20 @@ class SgzCropper(SgzReader):
                                                                                                   xline_index_range,
                                                                                                   zslices_index_range)
 
-        z_units = (pad(zslices_index_range[1], self.blockshape[2]) - zslices_index_range[0]) // 4
-        xl_units = (xline_index_range[1] - xline_index_range[0] + 3) // 4
-        il_units = (iline_index_range[1] - iline_index_range[0] + 3) // 4
-
         header = self.regenerate_header(iline_index_range, xline_index_range, zslices_index_range)
-        compressed_bytes = self.loader.read_chunk_range(iline_index_range[0],
-                                                        xline_index_range[0],
-                                                        zslices_index_range[0],
-                                                        il_units, xl_units, z_units)
+
+        # Bounds are aligned to the blockshape, so the crop is a cuboid of whole disk blocks.
+        # Blocks are stored in IL-XL-Z order, copy each contiguous run along Z in one read.
+        first_block = [r[0] // b for r, b in zip((iline_index_range, xline_index_range, zslices_index_range),
+                                                 self.blockshape)]
+        n_blocks = [(r[1] + b - 1) // b - r[0] // b for r, b in zip((iline_index_range, xline_index_range,
+                                                                     zslices_index_range), self.blockshape)]
+        compressed_bytes = bytearray()
+        for i in range(first_block[0], first_block[0] + n_blocks[0]):
+            for x in range(first_block[1], first_block[1] + n_blocks[1]):
+                block_id = self.loader.block_dims[2] * (self.loader.block_dims[1] * i + x) + first_block[2]
+                compressed_bytes += self.loader._get_compressed_bytes(self.block_bytes * block_id,
+                                                                      self.block_bytes * n_blocks[2])
         with open(out_file, 'wb') as new_sgz_file:
             new_sgz_file.write(header)
             new_sgz_file.write(compressed_bytes)
